@@ -132,13 +132,13 @@ func TestC20(t *testing.T) {
 		"JSON encoder; *Bytes reads as encoder hint + meta + body), close pool/center/storage, reopen the same storage, snapshot again, compare " +
 		"byte for byte (whether the answers are the right ones is C19's business). non-trivial: a reopen with a suffrage " +
 		"proof in the permanent store and >= 1 unmerged temp; distinct by (genesis size, cache, storage, step list)")
-	r.Floor(int64(r.N(20, 400)))
+	r.Floor(int64(r.N(15, 400)))
 	r.Assume("quiescent points only: no block write or merge is in flight when the storage is closed",
 		"TempPool.LastVoteproofs is kept in memory only by design and is not part of the stored pool contents",
 		"goleveldb (mem and file storage) is trusted")
 
 	maxSteps := r.N(12, 20)
-	r.Checks(80, 2400)
+	r.Checks(60, 2400)
 	r.ShrinkTime(60 * time.Second)
 
 	rapid.Check(t, func(rt *rapid.T) {
@@ -332,6 +332,7 @@ func TestC20(t *testing.T) {
 
 		r.Class("reopens", int64(nreopen))
 		r.Class("compared-reads", int64(ncompared))
+		r.Class("settle-timeouts", int64(e.SettleTimeouts))
 		r.Case(hist.String(), nontrivial, classes...)
 
 		if nontrivial && r.WantSample() {
